@@ -40,6 +40,13 @@ def audit(verbose=True):
                 if w.startswith(("Variable", "Hypothes")) and depth > 0:
                     continue
                 bad.append("%s:%d: %s" % (rel, ln, w))
+        # every theorem of a Props file prints its assumptions right after its proof
+        if rel.startswith("Props/"):
+            names = [(m.start(), m.group(1)) for m in re.finditer(r"^(?:Theorem|Lemma)\s+(\w+)", text_nc, re.M)]
+            for i, (pos, name) in enumerate(names):
+                end = names[i + 1][0] if i + 1 < len(names) else len(text_nc)
+                if ("Print Assumptions %s." % name) not in text_nc[pos:end]:
+                    bad.append("%s: theorem %s has no Print Assumptions" % (rel, name))
     if verbose:
         for b in bad:
             print("AUDIT:", b)
